@@ -45,8 +45,9 @@ class C19(vlib.Check):
                'the order of allocate / release / commit in the library\'s own buffer, string and string_stream code')
     rule = ('for each allocating operation (buffer: (ptr,len)/(count,fill)/copy construction, copy assignment, allocate, '
             'allocate(n,fill) in all four element types; string: from_validated, set, copy, =, +=, substr/left/right/to_upper/'
-            'to_lower/trim/operator+/replace/to_utf8/before_first/after_last; stream: every growing append) with target and '
-            'source in both storage modes, the fault that makes its k-th allocation (k = 0, 1) throw; then every object is '
+            'to_lower/trim/operator+/replace/to_utf8/before_first/after_last, and results built through temporaries: hex/base64 '
+            'encode and decode, ST::format, UTF-16/UTF-32 round trips, string_stream insertion + to_string; stream: every growing append) with target and '
+            'source in both storage modes, the fault that makes its k-th allocation (k = 0, 1; 0..3 for operations with several allocations) throw; then every object is '
             'observed, read, assigned to and destroyed. Oracle = the property itself evaluated on the implementation\'s own '
             'observations (target previous-or-empty, others unchanged, all valid, nothing shared, no leak). '
             'non-trivial = a case whose faulted operation actually threw')
@@ -77,11 +78,24 @@ class C19(vlib.Check):
                         yield 'buf %s 4 new,1,%s;copy,0,1;clear,1;del,1 failat=%d@1' % (ty, ua, k)
                         yield 'buf %s 4 new,1,%s;fill,0,%d,65;clear,1;del,1 failat=%d@1' % (ty, ua, a, k)
         # --- strings: a C04-style prefix, one faulted allocating operation, then use of everything
-        n = 150 if tier == 'quick' else 3000
+        n = 300 if tier == 'quick' else 5000
         for _ in range(n):
             c = self.string_case(rng)
             if c:
                 yield c
+        # --- every operation with several allocations, source short / at the limit / long, every allocation faulted
+        for name in ('hexenc', 'b64enc', 'hexrt', 'fmt', 'via16', 'via32', 'sstr'):
+            for size in (3, 11, 12, 15, 16, 40, 120):
+                for k in ((0, 1) if name == 'fmt' else (0, 1, 2, 3)):
+                    p = Pool(rng, 4)
+                    p.new(0, rstr(rng, size))
+                    p.new(1, rstr(rng, 20))
+                    step = len(p.ops)
+                    p.const_op(name, 2, 0)
+                    for o in (0, 1):
+                        p.ops.append('set,%d,%s' % (o, hx(rstr(rng, rng.choice([2, 20])))))
+                    p.ops += ['reads,0', 'del,0', 'del,1']
+                    yield 'str 4 %s failat=%d@%d' % (';'.join(p.ops), k, step)
         # --- streams
         stk = consts()['stack_string_size']
         for first in (0, 1, stk - 1, stk, 2 * stk, 2 * stk + 1, 5 * stk):
@@ -110,7 +124,9 @@ class C19(vlib.Check):
                 yield 'ss 3 %s failat=0@%d' % (';'.join(ops), 2 if fill else 1)
 
     ALLOC_CONST = ['substr', 'left', 'right', 'upper', 'lower', 'trim', 'plus', 'replace', 'replace_self', 'utf8',
-                   'before_first', 'after_last', 'copy']
+                   'before_first', 'after_last', 'copy',
+                   # results built through temporaries: several allocations, each of them faulted
+                   'hexenc', 'b64enc', 'hexrt', 'hexrt', 'fmt', 'fmt', 'via16', 'via32', 'sstr', 'sstr']
 
     def string_case(self, rng):
         p = Pool(rng, 4)
@@ -158,6 +174,11 @@ class C19(vlib.Check):
         for o in sorted(before):
             p.ops.append('del,%d' % o)
         k = rng.choice([0, 0, 0, 1])
+        fop = p.ops[step].split(',')[0]
+        if fop in ('hexenc', 'b64enc', 'hexrt', 'via16', 'via32', 'sstr'):
+            k = rng.choice([0, 1, 1, 2, 2, 3])
+        elif fop == 'fmt':
+            k = rng.choice([0, 1])      # the closures' blocks come first; the model stands for them by two dummies
         return 'str 4 %s failat=%d@%d' % (';'.join(p.ops), k, step)
 
     # ------------------------------------------------------------------ oracles
